@@ -1,8 +1,244 @@
 /-
-  C13 — property theorems (only `theorem C13_*` statements and non-vacuity examples live here;
-  helper lemmas go to CedarGoProofs/Lemmas/).
+  C13 — Entity, value and request JSON round-trip without loss (JSON-tree level).
+
+  Model: CedarGo/Model/Json/Value.lean (`encodeValue`, `decodeValue`, typed-position decoders, entity /
+  request codecs), tied to `types/json.go` etc. by the correspondence ops vjson-encode / vjson-decode /
+  uid-decode / ext-decode / ejson-* / rjson-* on generated and near-miss documents.
+
+  FULL STATEMENT (not a theorem, the code violates it):
+      ∀ v, ∃ v', decodeValue (encodeValue v) = .ok v' ∧ v'.beq v
+  It fails (a) for records with a reserved key (`C13_reserved_key_counterexample`, known finding
+  record-reserved-key) and (b) for extension values whose TEXT form does not parse back
+  (`C13_duration_min_counterexample`, `C13_ip_v4mapped_counterexample`: root causes in C12's territory).
+  The proved `_partial` theorems restrict to `v.NoReservedKeys` and `v.WF`; `WF` asks for: longs in int64
+  range, sets duplicate-free and records key-sorted (what `NewSet` / `NewRecord` build), and for each extension
+  leaf that `parse (print x) = x` — so the JSON layer itself is shown to add no loss.
 -/
-import CedarGo.Model.Fold
+import CedarGoProofs.Lemmas.C13
 namespace CedarGo
+open JsonModel Scalars
+
+/-- no record inside `v` has a key that (case-insensitively) is `__entity` or `__extn` -/
+def Value.NoReservedKeys (v : Value) : Prop := vNoReserved v = true
+/-- see the file header -/
+def Value.WF (v : Value) : Prop := vWF v = true
+instance (v : Value) : Decidable v.NoReservedKeys := by unfold Value.NoReservedKeys; infer_instance
+instance (v : Value) : Decidable v.WF := by unfold Value.WF; infer_instance
+
+/-- **Round trip** (partial: fragment `NoReservedKeys ∧ WF`): decoding the encoding succeeds with an equal value. -/
+theorem C13_value_json_roundtrip_partial (v : Value) (hr : v.NoReservedKeys) (hw : v.WF) :
+    ∃ v', decodeValue (encodeValue v) = .ok v' ∧ v'.beq v = true :=
+  ⟨v, decodeValue_encodeValue v hw hr, beq_refl v⟩
+
+/-- on that fragment the decoded value is even structurally identical (same member order, same key order) -/
+theorem C13_value_json_roundtrip_exact_partial (v : Value) (hr : v.NoReservedKeys) (hw : v.WF) :
+    decodeValue (encodeValue v) = .ok v :=
+  decodeValue_encodeValue v hw hr
+
+/-- **Stability**: the second encoding equals the first (tree level; Go's member order inside a set is its
+    hash-slot order, which the tree model does not see — see the known finding set-hash-collision-order). -/
+theorem C13_value_json_stable_partial (v v' : Value) (hr : v.NoReservedKeys) (hw : v.WF)
+    (h : decodeValue (encodeValue v) = .ok v') : encodeValue v' = encodeValue v := by
+  rw [decodeValue_encodeValue v hw hr] at h
+  cases h; rfl
+
+example : (Value.record [("a", .set [.long 1, .str "x", .entity "T" "i"]), ("b", .decimal 15000), ("c", .ip ⟨false, 167772161, 8⟩),
+    ("d", .duration 3600001), ("e", .datetime 1700000000000)]).WF := by decide +kernel
+example : (Value.record [("a", .set [.long 1, .str "x"]), ("type", .str "T")]).NoReservedKeys := by decide +kernel
+
+/-- **Reserved keys**: a well-formed record whose encoding IS the entity escape decodes to an entity. -/
+theorem C13_reserved_key_counterexample :
+    ∃ v : Value, v.WF ∧ ∃ v', decodeValue (encodeValue v) = .ok v' ∧ v'.beq v = false :=
+  ⟨.record [("__entity", .record [("id", .str "b"), ("type", .str "A")])], by decide +kernel,
+   .entity "A" "b", isOkEntity_eq (by decide +kernel), by decide +kernel⟩
+
+/-- … and one whose encoding is an `__extn` escape with an unknown function is rejected outright
+    (also for the upper-case spelling of the key: field matching is case-insensitive). -/
+theorem C13_reserved_key_rejected_counterexample :
+    ∃ v : Value, v.WF ∧ decodeValue (encodeValue v) = .error .reject :=
+  ⟨.record [("__EXTN", .record [("fn", .str "nosuch")])], by decide +kernel, isReject_eq (by decide +kernel)⟩
+
+/-- `Duration(MinInt64)` prints as "-" and is rejected by its own decoder. -/
+theorem C13_duration_min_counterexample :
+    ∃ v : Value, v.NoReservedKeys ∧ decodeValue (encodeValue v) = .error .reject :=
+  ⟨.duration minI64, by decide +kernel, isReject_eq (by decide +kernel)⟩
+
+/-- the IPv4-mapped IPv6 address ::ffff:1.2.3.4 prints in dotted form, which `ParseIPAddr` refuses. -/
+theorem C13_ip_v4mapped_counterexample :
+    ∃ v : Value, v.NoReservedKeys ∧ decodeValue (encodeValue v) = .error .reject :=
+  ⟨.ip ⟨true, 0xffff01020304, 128⟩, by decide +kernel, isReject_eq (by decide +kernel)⟩
+
+/-- a `Datetime` in the first representable day prints a timestamp its own decoder calls out of range. -/
+theorem C13_datetime_first_day_counterexample :
+    ∃ v : Value, v.NoReservedKeys ∧ decodeValue (encodeValue v) = .error .reject :=
+  ⟨.datetime minI64, by decide +kernel, isReject_eq (by decide +kernel)⟩
+
+/-! ### Entities and requests -/
+
+theorem C13_spellings_agree_uid_aux (t i : String) : decodeUID (encodeValue (.entity t i)) = .ok (t, i) := by
+  have h2 : keyMatches "__entity" "__entity" = true := by decide +kernel
+  have h3 : keyMatches "__entity" "type" = false := by decide +kernel
+  have h4 : keyMatches "__entity" "id" = false := by decide +kernel
+  have h5 : keyMatches "id" "type" = false := by decide +kernel
+  have h6 : keyMatches "type" "type" = true := by decide +kernel
+  have h7 : keyMatches "id" "id" = true := by decide +kernel
+  have h8 : keyMatches "type" "id" = false := by decide +kernel
+  simp [decodeUID, encodeValue, findField, List.filter, optStrField, strField, h2, h3, h4, h5, h6, h7, h8, bind, Except.bind]
+
+/-- well-formed entity data: parents as `Entity.MarshalJSON` emits them (sorted, duplicate-free), attribute and
+    tag records well-formed without reserved keys -/
+def EntityData.WFJson (d : EntityData) : Prop :=
+  sortUIDs d.parents = d.parents ∧ recordWF d.attrs = true ∧ recordWF d.tags = true
+
+theorem C13_entity_json_roundtrip_partial (uid : UID) (d : EntityData) (h : d.WFJson) :
+    decodeEntity (encodeEntity (uid, d)) = .ok (uid, d) := by
+  obtain ⟨hp, ha, ht⟩ := h
+  have k1 : keyMatches "attrs" "uid" = false := by decide +kernel
+  have k2 : keyMatches "parents" "uid" = false := by decide +kernel
+  have k3 : keyMatches "tags" "uid" = false := by decide +kernel
+  have k4 : keyMatches "uid" "uid" = true := by decide +kernel
+  have k5 : keyMatches "attrs" "parents" = false := by decide +kernel
+  have k6 : keyMatches "parents" "parents" = true := by decide +kernel
+  have k7 : keyMatches "tags" "parents" = false := by decide +kernel
+  have k8 : keyMatches "uid" "parents" = false := by decide +kernel
+  have k9 : keyMatches "attrs" "attrs" = true := by decide +kernel
+  have k10 : keyMatches "parents" "attrs" = false := by decide +kernel
+  have k11 : keyMatches "tags" "attrs" = false := by decide +kernel
+  have k12 : keyMatches "uid" "attrs" = false := by decide +kernel
+  have k13 : keyMatches "attrs" "tags" = false := by decide +kernel
+  have k14 : keyMatches "parents" "tags" = false := by decide +kernel
+  have k15 : keyMatches "tags" "tags" = true := by decide +kernel
+  have k16 : keyMatches "uid" "tags" = false := by decide +kernel
+  have f1 : ∀ (a p t u : J), findField [("attrs", a), ("parents", p), ("tags", t), ("uid", u)] "uid" = .one u := by
+    intros; simp [findField, List.filter, k1, k2, k3, k4]
+  have f2 : ∀ (a p t u : J), findField [("attrs", a), ("parents", p), ("tags", t), ("uid", u)] "parents" = .one p := by
+    intros; simp [findField, List.filter, k5, k6, k7, k8]
+  have f3 : ∀ (a p t u : J), findField [("attrs", a), ("parents", p), ("tags", t), ("uid", u)] "attrs" = .one a := by
+    intros; simp [findField, List.filter, k9, k10, k11, k12]
+  have f4 : ∀ (a p t u : J), findField [("attrs", a), ("parents", p), ("tags", t), ("uid", u)] "tags" = .one t := by
+    intros; simp [findField, List.filter, k13, k14, k15, k16]
+  simp only [decodeEntity, encodeEntity, decodeUIDField_of _ _ _ (f1 _ _ _ _), decodeRecordField_of _ _ _ (f3 _ _ _ _) ha,
+    decodeRecordField_of _ _ _ (f4 _ _ _ _) ht, f2, decodeUID_implicit, mapMR_decodeUID, bind, Except.bind, hp]
+
+example : (⟨[("Group", "a"), ("Group", "b")], [("n", .long 1)], []⟩ : EntityData).WFJson := by
+  refine ⟨by decide +kernel, by decide +kernel, by decide +kernel⟩
+
+def JsonModel.RequestM.WFJson (r : RequestM) : Prop := recordWF r.context = true
+
+theorem C13_request_json_roundtrip_partial (r : RequestM) (h : r.WFJson) :
+    decodeRequest (encodeRequest r) = .ok r := by
+  obtain ⟨⟨pt, pi⟩, ⟨at_, ai⟩, ⟨rt, ri⟩, ctx⟩ := r
+  replace h : recordWF ctx = true := h
+  have k1 : keyMatches "action" "principal" = false := by decide +kernel
+  have k2 : keyMatches "context" "principal" = false := by decide +kernel
+  have k3 : keyMatches "principal" "principal" = true := by decide +kernel
+  have k4 : keyMatches "resource" "principal" = false := by decide +kernel
+  have k5 : keyMatches "action" "action" = true := by decide +kernel
+  have k6 : keyMatches "context" "action" = false := by decide +kernel
+  have k7 : keyMatches "principal" "action" = false := by decide +kernel
+  have k8 : keyMatches "resource" "action" = false := by decide +kernel
+  have k9 : keyMatches "action" "resource" = false := by decide +kernel
+  have k10 : keyMatches "context" "resource" = false := by decide +kernel
+  have k11 : keyMatches "principal" "resource" = false := by decide +kernel
+  have k12 : keyMatches "resource" "resource" = true := by decide +kernel
+  have k13 : keyMatches "action" "context" = false := by decide +kernel
+  have k14 : keyMatches "context" "context" = true := by decide +kernel
+  have k15 : keyMatches "principal" "context" = false := by decide +kernel
+  have k16 : keyMatches "resource" "context" = false := by decide +kernel
+  have f1 : ∀ (a c p u : J), findField [("action", a), ("context", c), ("principal", p), ("resource", u)] "principal" = .one p := by
+    intros; simp [findField, List.filter, k1, k2, k3, k4]
+  have f2 : ∀ (a c p u : J), findField [("action", a), ("context", c), ("principal", p), ("resource", u)] "action" = .one a := by
+    intros; simp [findField, List.filter, k5, k6, k7, k8]
+  have f3 : ∀ (a c p u : J), findField [("action", a), ("context", c), ("principal", p), ("resource", u)] "resource" = .one u := by
+    intros; simp [findField, List.filter, k9, k10, k11, k12]
+  have f4 : ∀ (a c p u : J), findField [("action", a), ("context", c), ("principal", p), ("resource", u)] "context" = .one c := by
+    intros; simp [findField, List.filter, k13, k14, k15, k16]
+  simp only [decodeRequest, encodeRequest, decodeUIDField_of _ _ _ (f1 _ _ _ _), decodeUIDField_of _ _ _ (f2 _ _ _ _),
+    decodeUIDField_of _ _ _ (f3 _ _ _ _), decodeRecordField_of _ _ _ (f4 _ _ _ _) h, C13_spellings_agree_uid_aux, bind, Except.bind]
+
+example : (⟨("User", "a"), ("Action", "x"), ("Doc", "d"), [("k", .set [.long 1])]⟩ : RequestM).WFJson := by
+  unfold JsonModel.RequestM.WFJson; decide +kernel
+
+/-! ### All accepted spellings of one datum decode alike -/
+
+/-- explicit `{"__entity":{type,id}}` and implicit `{type,id}` in an `EntityUID` position, and the explicit form
+    in a value position -/
+theorem C13_spellings_agree_uid (t i : String) :
+    decodeUID (encodeValue (.entity t i)) = .ok (t, i) ∧ decodeUID (implicitUID (t, i)) = .ok (t, i) ∧
+    decodeValue (encodeValue (.entity t i)) = .ok (.entity t i) := by
+  have h2 : keyMatches "__entity" "__entity" = true := by decide +kernel
+  have h3 : keyMatches "__entity" "type" = false := by decide +kernel
+  have h4 : keyMatches "__entity" "id" = false := by decide +kernel
+  have h5 : keyMatches "id" "type" = false := by decide +kernel
+  have h6 : keyMatches "type" "type" = true := by decide +kernel
+  have h7 : keyMatches "id" "id" = true := by decide +kernel
+  have h8 : keyMatches "type" "id" = false := by decide +kernel
+  have h9 : keyMatches "id" "__entity" = false := by decide +kernel
+  have h10 : keyMatches "type" "__entity" = false := by decide +kernel
+  refine ⟨?_, ?_, decodeValue_encodeValue _ (by simp [vWF]) (by simp [vNoReserved])⟩
+  · simp [decodeUID, encodeValue, findField, List.filter, optStrField, strField, h2, h3, h4, h5, h6, h7, h8, bind, Except.bind]
+  · simp [decodeUID, implicitUID, findField, List.filter, optStrField, h5, h6, h7, h8, h9, h10, bind, Except.bind]
+
+/-- the three spellings accepted in an extension-typed position give the same argument string, hence the same
+    value: explicit `{"__extn":{fn,arg}}`, bare `{fn,arg}`, bare string -/
+theorem C13_spellings_agree_extn (name arg : String) (hname : name ≠ "") :
+    decodeExtArg name (extJ name arg) = .ok arg ∧
+    decodeExtArg name (.obj [("arg", .str arg), ("fn", .str name)]) = .ok arg ∧
+    decodeExtArg name (.str arg) = .ok arg := by
+  have h1 : keyMatches "__extn" "__extn" = true := by decide +kernel
+  have h2 : keyMatches "arg" "fn" = false := by decide +kernel
+  have h3 : keyMatches "fn" "fn" = true := by decide +kernel
+  have h4 : keyMatches "arg" "arg" = true := by decide +kernel
+  have h5 : keyMatches "fn" "arg" = false := by decide +kernel
+  have h6 : keyMatches "arg" "__extn" = false := by decide +kernel
+  have h7 : keyMatches "fn" "__extn" = false := by decide +kernel
+  refine ⟨?_, ?_, rfl⟩
+  · simp [decodeExtArg, extJ, findField, List.filter, strField, h1, h2, h3, h4, h5, bind, Except.bind]
+  · simp [decodeExtArg, findField, List.filter, strField, h2, h3, h4, h5, h6, h7, bind, Except.bind, hname]
+
+/-- consequently the typed decoders agree with the value decoder on the explicit spelling -/
+theorem C13_spellings_agree_decimal (d : Int) (h : (Value.decimal d).WF) :
+    decodeDecimalTyped (encodeValue (.decimal d)) = .ok (.decimal d) ∧
+    decodeDecimalTyped (.str (printDecimal d)) = .ok (.decimal d) ∧
+    decodeValue (encodeValue (.decimal d)) = .ok (.decimal d) := by
+  have hp : parseDecimal (printDecimal d) = .ok d := okEq_ok (by simpa [Value.WF, vWF] using h)
+  have e := (C13_spellings_agree_extn "decimal" (printDecimal d) (by decide)).1
+  refine ⟨?_, ?_, decodeValue_encodeValue _ h (by simp [vNoReserved])⟩
+  · simp only [decodeDecimalTyped, encodeValue, e, bind, Except.bind, hp]; rfl
+  · simp only [decodeDecimalTyped, decodeExtArg, bind, Except.bind, hp]; rfl
+
+/-! ### schema-guided coercion of the implicit spellings (`x/exp/types`): leaf cases
+(nested sets / records: direct oracle `UnmarshalJSONWithSchema` and correspondence op `coerce`) -/
+
+/-- an implicit `{"type","id"}` decodes (unguided) as a record and is coerced to the entity in an entity-typed position -/
+theorem C13_coerce_implicit_entity (t i ty : String) :
+    (decodeValue (implicitUID (t, i))).map (coerceValue (.entity ty)) = .ok (.entity t i) := by
+  have hlt : ("id" < "type") = True := by decide
+  have e : implicitUID (t, i) = encodeValue (.record [("id", .str i), ("type", .str t)]) := by
+    simp [implicitUID, encodeValue, encodeKVs]
+  have k1 : keyMatches "id" "__extn" = false := by decide +kernel
+  have k2 : keyMatches "id" "__entity" = false := by decide +kernel
+  have k3 : keyMatches "type" "__extn" = false := by decide +kernel
+  have k4 : keyMatches "type" "__entity" = false := by decide +kernel
+  rw [e, decodeValue_encodeValue _ (by simp [vWF, wfJsonKV, keysSorted, hlt])
+    (by simp [vNoReserved, noReservedKeysKV, reservedKey, k1, k2, k3, k4])]
+  have n1 : ("type" == "id") = false := by decide
+  simp [Except.map, coerceValue, coerceEntityUID, kvGet, n1]
+
+/-- a bare string is coerced to the extension value it spells in an extension-typed position -/
+theorem C13_coerce_implicit_decimal (d : Int) (h : (Value.decimal d).WF) :
+    (decodeValue (.str (printDecimal d))).map (coerceValue (.ext "decimal")) = .ok (.decimal d) := by
+  have hp : parseDecimal (printDecimal d) = .ok d := okEq_ok (by simpa [Value.WF, vWF] using h)
+  have e : J.str (printDecimal d) = encodeValue (.str (printDecimal d)) := rfl
+  have n1 : ("decimal" == "ipaddr") = false := by decide
+  rw [e, decodeValue_encodeValue _ (by simp [vWF]) (by simp [vNoReserved])]
+  simp [Except.map, coerceValue, coerceExtension, n1, hp]
+
+theorem C13_coerce_implicit_ip (a : IPNet) (h : (Value.ip a).WF) :
+    (decodeValue (.str (printIPNet a))).map (coerceValue (.ext "ipaddr")) = .ok (.ip a) := by
+  have hp : parseIP (printIPNet a) = .ok a := okEqIP_ok (by simpa [Value.WF, vWF] using h)
+  have e : J.str (printIPNet a) = encodeValue (.str (printIPNet a)) := rfl
+  rw [e, decodeValue_encodeValue _ (by simp [vWF]) (by simp [vNoReserved])]
+  simp [Except.map, coerceValue, coerceExtension, hp]
 
 end CedarGo
